@@ -33,7 +33,7 @@ class SimUnsupported(Exception):
 
 
 class Inode(object):
-    __slots__ = ('kind', 'mode', 'entries', 'parent', 'data', 'target', 'ino', 'marker')
+    __slots__ = ('kind', 'mode', 'entries', 'parent', 'data', 'target', 'ino', 'marker', 'mtime')
 
     def __init__(self, kind, mode, ino):
         self.kind = kind            # 'd', 'f', 'l'
@@ -44,6 +44,7 @@ class Inode(object):
         self.target = None
         self.ino = ino
         self.marker = None
+        self.mtime = 0              # simulated seconds; set by SimFS._new / on modification
 
 
 def _oserr(code, path):
@@ -53,6 +54,7 @@ def _oserr(code, path):
 class SimFS(object):
     def __init__(self):
         self._next_ino = 2
+        self.clock = 1000000000
         self.root = self._new('d', 0o755)
         self.root.parent = self.root
         self.cwd = self.root
@@ -62,12 +64,21 @@ class SimFS(object):
         self.fault_plan = None         # (k, errno_index) -> k-th call from arming fails
         self.fault_fired = None
         self._armed_at = 0
+        # simulated wall clock for time stamps: the layout is old (built "long ago"); every later
+        # modification advances it, so that a changed file never keeps its time stamps
+        self.clock = 1000000000
+        self.fd_nodes = {}             # real descriptor (anonymous in-memory file) -> inode it was opened on
 
     # ---------------------------------------------------------------- building
     def _new(self, kind, mode):
         ino = Inode(kind, mode, self._next_ino)
         self._next_ino += 1
+        ino.mtime = self.clock
         return ino
+
+    def touch_clock(self):
+        self.clock += 100
+        return self.clock
 
     def _parent_for_create(self, path):
         comps = [c for c in path.split('/') if c]
@@ -105,6 +116,9 @@ class SimFS(object):
         node.mode = mode
         node.data = data if isinstance(data, bytes) else data.encode('utf-8')
         node.marker = marker
+        node.mtime = self.clock
+        if name not in par.entries:
+            par.mtime = self.clock
         par.entries[name] = node
         return node
 
@@ -116,6 +130,7 @@ class SimFS(object):
         node.parent = par
         node.target = target
         par.entries[name] = node
+        par.mtime = self.clock
         return node
 
     def remove(self, path):
@@ -126,6 +141,7 @@ class SimFS(object):
         if node.kind == 'd' and node.entries:
             return False
         del par.entries[name]
+        par.mtime = self.clock
         return True
 
     def rename(self, src, dst):
@@ -147,6 +163,7 @@ class SimFS(object):
         del spar.entries[sname]
         dpar.entries[dname] = node
         node.parent = dpar
+        spar.mtime = dpar.mtime = self.clock
         return True
 
     def set_cwd(self, path):
@@ -259,7 +276,26 @@ class SimFS(object):
     def _stat_result(self, node):
         fmt = {'d': statmod.S_IFDIR, 'f': statmod.S_IFREG, 'l': statmod.S_IFLNK}[node.kind]
         size = len(node.data) if node.kind == 'f' else (len(node.target) if node.kind == 'l' else 4096)
-        return os.stat_result((fmt | node.mode, node.ino, 0x51, 1, 1000, 1000, size, 0, 0, 0))
+        t = node.mtime
+        ns = t * 1000000000
+        return os.stat_result((fmt | node.mode, node.ino, 0x51, 1, 1000, 1000, size, t, t, t),
+                              {'st_atime': float(t), 'st_mtime': float(t), 'st_ctime': float(t),
+                               'st_atime_ns': ns, 'st_mtime_ns': ns, 'st_ctime_ns': ns,
+                               'st_blksize': 4096, 'st_blocks': (size + 511) // 512, 'st_rdev': 0})
+
+    def fstat(self, fd):
+        self._syscall('fstat', '<fd %d>' % fd)
+        return self._stat_result(self.fd_nodes[fd])
+
+    def _memfd(self, node):
+        fd = os.memfd_create('simfs')
+        data = node.data
+        off = 0
+        while off < len(data):
+            off += os.write(fd, data[off:])
+        os.lseek(fd, 0, os.SEEK_SET)
+        self.fd_nodes[fd] = node
+        return fd
 
     def stat(self, path):
         self._syscall('stat', path)
@@ -317,13 +353,7 @@ class SimFS(object):
         if not node.mode & 0o400:
             raise _oserr(errno.EACCES, path)
         self._syscall('read', path)
-        fd = os.memfd_create('simfs')
-        data = node.data
-        off = 0
-        while off < len(data):
-            off += os.write(fd, data[off:])
-        os.lseek(fd, 0, os.SEEK_SET)
-        return fd
+        return self._memfd(node)
 
     def open(self, path, mode='r', buffering=-1, encoding=None, errors=None, newline=None,
              closefd=True, opener=None):
@@ -335,7 +365,7 @@ class SimFS(object):
             raise _oserr(errno.EISDIR, path)
         if not node.mode & 0o400:
             raise _oserr(errno.EACCES, path)
-        raw = _SimRaw(self, node.data, path)
+        raw = _SimRaw(self, node.data, path, node)
         if 'b' in mode:
             return io.BufferedReader(raw)
         return io.TextIOWrapper(io.BufferedReader(raw), encoding=encoding or 'utf-8',
@@ -343,12 +373,31 @@ class SimFS(object):
 
 
 class _SimRaw(io.RawIOBase):
-    def __init__(self, fs, data, path):
+    def __init__(self, fs, data, path, node=None):
         io.RawIOBase.__init__(self)
         self._fs, self._data, self._off, self.name = fs, data, 0, path
+        self._node, self._fd = node, None
 
     def readable(self):
         return True
+
+    def fileno(self):
+        # a descriptor exists as soon as somebody asks for it (os.fstat(f.fileno()) and friends)
+        if self._fd is None:
+            if self._node is None:
+                raise io.UnsupportedOperation('fileno')
+            self._fd = self._fs._memfd(self._node)
+        return self._fd
+
+    def close(self):
+        if self._fd is not None:
+            self._fs.fd_nodes.pop(self._fd, None)
+            try:
+                os.close(self._fd)
+            except OSError:
+                pass
+            self._fd = None
+        io.RawIOBase.close(self)
 
     def readinto(self, b):
         self._fs._syscall('read', self.name)
@@ -363,7 +412,7 @@ class _SimRaw(io.RawIOBase):
 
 class Mount(object):
     PATCHED_OS = ('stat', 'lstat', 'readlink', 'getcwd', 'listdir', 'scandir', 'access', 'open',
-                  'getcwdb')
+                  'getcwdb', 'fstat', 'close')
 
     def __init__(self, fs, real_prefixes):
         self.fs = fs
@@ -408,7 +457,18 @@ class Mount(object):
             m.unsupported.append(what)
             raise SimUnsupported(what)
 
+        def sim_fstat(fd):
+            if fd in fs.fd_nodes:
+                return fs.fstat(fd)
+            return real['fstat'](fd)
+
+        def sim_close(fd):
+            fs.fd_nodes.pop(fd, None)
+            return real['close'](fd)
+
         def sim_stat(path, *, dir_fd=None, follow_symlinks=True):
+            if isinstance(path, int) and path in fs.fd_nodes:
+                return fs.fstat(path)
             if not m.is_sim(path):
                 return real['stat'](path, dir_fd=dir_fd, follow_symlinks=follow_symlinks)
             if dir_fd is not None:
@@ -468,6 +528,7 @@ class Mount(object):
         os.stat, os.lstat, os.readlink = sim_stat, sim_lstat, sim_readlink
         os.getcwd, os.getcwdb, os.listdir, os.scandir = sim_getcwd, sim_getcwdb, sim_listdir, sim_scandir
         os.access, os.open = sim_access, sim_os_open
+        os.fstat, os.close = sim_fstat, sim_close
         builtins.open = sim_open
         io.open = sim_open
         return self
